@@ -81,6 +81,21 @@ class _Canon(ast.NodeTransformer):
 
     def visit_Call(self, n):
         self.generic_visit(n)
+        # (lambda a, b: E)(x, y)  ->  E[a := x, b := y]   for pure arguments
+        if isinstance(n.func, ast.Lambda) and not n.keywords and not n.func.args.defaults and not n.func.args.vararg and not n.func.args.kwarg \
+                and not n.func.args.kwonlyargs and len(n.func.args.args) == len(n.args) and all(is_pure(a) and not isinstance(a, ast.Starred) for a in n.args):
+            amap = {p_.arg: a for p_, a in zip(n.func.args.args, n.args)}
+
+            class B(ast.NodeTransformer):
+                def visit_Name(self, nm):
+                    if nm.id in amap and isinstance(nm.ctx, ast.Load):
+                        return ast.copy_location(clone(amap[nm.id]), nm)
+                    return nm
+
+                def visit_Lambda(self, inner):
+                    return inner
+            self.stats['canon_beta'] = self.stats.get('canon_beta', 0) + 1
+            return ast.copy_location(B().visit(clone(n.func.body)), n)
         # getattr(obj, 'name')  ->  obj.name
         if isinstance(n.func, ast.Name) and n.func.id == 'getattr' and len(n.args) == 2 and not n.keywords \
                 and isinstance(n.args[1], ast.Constant) and isinstance(n.args[1].value, str) and n.args[1].value.isidentifier():
@@ -194,6 +209,29 @@ class _Canon(ast.NodeTransformer):
             return n.body if n.test.value else n.orelse
         return n
 
+    def visit_Expr(self, n):
+        self.generic_visit(n)
+        # setattr(obj, 'name', v)  ->  obj.name = v
+        c = n.value
+        if isinstance(c, ast.Call) and isinstance(c.func, ast.Name) and c.func.id == 'setattr' and len(c.args) == 3 and not c.keywords \
+                and isinstance(c.args[1], ast.Constant) and isinstance(c.args[1].value, str) and c.args[1].value.isidentifier():
+            self.stats['setattr_const'] = self.stats.get('setattr_const', 0) + 1
+            new = ast.Assign(targets=[ast.Attribute(value=c.args[0], attr=c.args[1].value, ctx=ast.Store())], value=c.args[2])
+            return ast.copy_location(new, n)
+        return n
+
+    def visit_Assign(self, n):
+        self.generic_visit(n)
+        # (a, b) = (x, y)  ->  a = x; b = y   when no target name is read on the right-hand side
+        if len(n.targets) == 1 and isinstance(n.targets[0], (ast.Tuple, ast.List)) and isinstance(n.value, (ast.Tuple, ast.List)) \
+                and len(n.targets[0].elts) == len(n.value.elts) and all(isinstance(t, ast.Name) for t in n.targets[0].elts) \
+                and not any(isinstance(e, ast.Starred) for e in n.value.elts):
+            tn = {t.id for t in n.targets[0].elts}
+            if not any(isinstance(x, ast.Name) and x.id in tn for e in n.value.elts for x in ast.walk(e)) and len(tn) == len(n.targets[0].elts):
+                self.stats['canon_unpack_literal'] = self.stats.get('canon_unpack_literal', 0) + 1
+                return [ast.copy_location(ast.Assign(targets=[ast.Name(id=t.id, ctx=ast.Store())], value=e), n) for t, e in zip(n.targets[0].elts, n.value.elts)]
+        return n
+
     def visit_If(self, n):
         self.generic_visit(n)
         # a test that is a literal (left behind by unrolling / inlining with constant arguments): keep the live arm
@@ -268,6 +306,8 @@ class _Canon(ast.NodeTransformer):
 def is_pure(e):
     if isinstance(e, (ast.Constant, ast.Name)):
         return True
+    if isinstance(e, ast.Lambda):
+        return True      # (creating the function object has no effect; it is applied elsewhere)
     if isinstance(e, ast.Attribute):
         return is_pure(e.value)
     if isinstance(e, ast.Subscript):
@@ -976,7 +1016,12 @@ class Inliner(object):
                     continue
                 self.k += 1
                 suffix = '__i%d' % self.k
-                ren = {nm: nm + suffix for nm in _locals_of(helper) if nm != 'self'}
+                # a local of the helper keeps its name unless the caller already uses that name; a parameter that is passed
+                # the caller's variable of the same name (and is not rebound in the helper) IS that variable
+                caller_names = {x.id for x in ast.walk(fn) if isinstance(x, ast.Name)} | {a_.arg for a_ in fn.args.args}
+                stored_in_helper = {x.id for x in ast.walk(helper) if isinstance(x, ast.Name) and isinstance(x.ctx, (ast.Store, ast.Del))}
+                same = {p for p, a in b if isinstance(a, ast.Name) and a.id == p and p not in stored_in_helper}
+                ren = {nm: (nm + suffix if (nm in caller_names and nm not in same) else nm) for nm in _locals_of(helper) if nm != 'self'}
                 body = clone(_doc_stripped(helper.body))
                 res = '__ret' + suffix
                 whole = isinstance(s, ast.Expr) and s.value is c
@@ -992,6 +1037,8 @@ class Inliner(object):
                     continue
                 pre = []
                 for p, a in b:
+                    if p in same:
+                        continue
                     asg = ast.Assign(targets=[ast.Name(id=ren[p], ctx=ast.Store())], value=clone(a))
                     pre.append(ast.copy_location(asg, s))
                 if needs_init and not whole:
@@ -1253,6 +1300,33 @@ def expand_tables(tree, cls, fn, stats):
     tabs = _table_defs(tree, cls, fn)
     if not tabs:
         return
+    # a lookup with a constant key is the row itself:  T.get('ISA') / T['ISA']  ->  the value (None when get() misses)
+
+    class K(ast.NodeTransformer):
+        def visit_Call(self, n):
+            self.generic_visit(n)
+            if isinstance(n.func, ast.Attribute) and n.func.attr == 'get' and len(n.args) in (1, 2) and not n.keywords \
+                    and _unparse(n.func.value) in tabs and isinstance(n.args[0], ast.Constant):
+                d = tabs[_unparse(n.func.value)]
+                for k, v in zip(d.keys, d.values):
+                    if k.value == n.args[0].value and type(k.value) is type(n.args[0].value):
+                        stats['const_key_lookups'] = stats.get('const_key_lookups', 0) + 1
+                        return ast.copy_location(clone(v), n)
+                stats['const_key_lookups'] = stats.get('const_key_lookups', 0) + 1
+                return ast.copy_location(clone(n.args[1]) if len(n.args) == 2 else ast.Constant(value=None), n)
+            return n
+
+        def visit_Subscript(self, n):
+            self.generic_visit(n)
+            if isinstance(n.ctx, ast.Load) and _unparse(n.value) in tabs and isinstance(n.slice, ast.Constant):
+                d = tabs[_unparse(n.value)]
+                for k, v in zip(d.keys, d.values):
+                    if k.value == n.slice.value and type(k.value) is type(n.slice.value):
+                        stats['const_key_lookups'] = stats.get('const_key_lookups', 0) + 1
+                        return ast.copy_location(clone(v), n)
+            return n
+    K().visit(fn)
+    ast.fix_missing_locations(fn)
     changed = True
     rounds = 0
     while changed and rounds < 20:
@@ -1706,6 +1780,95 @@ def merge_accumulators(fn, stats):
     ast.fix_missing_locations(fn)
 
 
+def _is_assoc_lookup(f):
+    """def f(table, key): for (k, v) in table: if key == k: return v  [return None]"""
+    if not isinstance(f, ast.FunctionDef) or len(f.args.args) != 2 or f.args.defaults or f.args.vararg or f.args.kwarg or f.decorator_list:
+        return False
+    tparam, kparam = f.args.args[0].arg, f.args.args[1].arg
+    body = _doc_stripped(f.body)
+    if not (1 <= len(body) <= 2) or not isinstance(body[0], ast.For):
+        return False
+    lp = body[0]
+    if not (isinstance(lp.iter, ast.Name) and lp.iter.id == tparam and isinstance(lp.target, ast.Tuple) and len(lp.target.elts) == 2
+            and all(isinstance(x, ast.Name) for x in lp.target.elts) and not lp.orelse and len(lp.body) == 1):
+        return False
+    kv, vv = lp.target.elts[0].id, lp.target.elts[1].id
+    t = lp.body[0]
+    if not (isinstance(t, ast.If) and not t.orelse and len(t.body) == 1 and isinstance(t.body[0], ast.Return) and isinstance(t.body[0].value, ast.Name)
+            and t.body[0].value.id == vv and isinstance(t.test, ast.Compare) and len(t.test.ops) == 1 and isinstance(t.test.ops[0], ast.Eq)):
+        return False
+    sides = {getattr(t.test.left, 'id', None), getattr(t.test.comparators[0], 'id', None)}
+    if sides != {kparam, kv}:
+        return False
+    if len(body) == 2 and not (isinstance(body[1], ast.Return) and (body[1].value is None or (isinstance(body[1].value, ast.Constant) and body[1].value.value is None))):
+        return False
+    return True
+
+
+def resolve_assoc_tables(tree, stats):
+    """N13: a hand-written lookup in a constant tuple of (key, value) pairs - `_table_get(TABLE, k)` with the helper shaped
+    `for (tk, v) in table: if k == tk: return v` - is `DICT.get(k)` over the same pairs: the table is restated as a
+    module-level dict the other passes know how to expand"""
+    helpers = {f.name for f in tree.body if _is_assoc_lookup(f)}
+    if not helpers:
+        return
+    # constant tables: module level NAME = ((k, v), ...) and class level (self.NAME / Cls.NAME)
+    tables = {}
+
+    def pairs_of(v):
+        if isinstance(v, (ast.Tuple, ast.List)) and v.elts and all(isinstance(e, (ast.Tuple, ast.List)) and len(e.elts) == 2 and isinstance(e.elts[0], ast.Constant)
+                                                                  and isinstance(e.elts[0].value, (str, int)) and is_pure(e.elts[1]) for e in v.elts):
+            return [(e.elts[0], e.elts[1]) for e in v.elts]
+        return None
+    for st in tree.body:
+        if isinstance(st, ast.Assign) and len(st.targets) == 1 and isinstance(st.targets[0], ast.Name) and pairs_of(st.value):
+            tables[st.targets[0].id] = pairs_of(st.value)
+        if isinstance(st, ast.ClassDef):
+            for c in st.body:
+                if isinstance(c, ast.Assign) and len(c.targets) == 1 and isinstance(c.targets[0], ast.Name) and pairs_of(c.value):
+                    nm = c.targets[0].id
+                    stored = sum(1 for x in ast.walk(tree) if isinstance(x, ast.Attribute) and x.attr == nm and isinstance(x.ctx, (ast.Store, ast.Del)))
+                    if not stored:
+                        tables['self.' + nm] = pairs_of(c.value)
+                        tables[st.name + '.' + nm] = pairs_of(c.value)
+    made = {}
+    new_defs = []
+
+    class T(ast.NodeTransformer):
+        def visit_Call(self, n):
+            self.generic_visit(n)
+            if isinstance(n.func, ast.Name) and n.func.id in helpers and len(n.args) == 2 and not n.keywords:
+                ref = _unparse(n.args[0])
+                if ref in tables:
+                    if ref not in made:
+                        nm = '__assoc_%d' % len(made)
+                        made[ref] = nm
+                        d = ast.Dict(keys=[clone(k) for k, _v in tables[ref]], values=[clone(v) for _k, v in tables[ref]])
+                        new_defs.append(ast.Assign(targets=[ast.Name(id=nm, ctx=ast.Store())], value=d))
+                    call = ast.Call(func=ast.Attribute(value=ast.Name(id=made[ref], ctx=ast.Load()), attr='get', ctx=ast.Load()), args=[n.args[1]], keywords=[])
+                    stats['assoc_lookups'] = stats.get('assoc_lookups', 0) + 1
+                    return ast.copy_location(call, n)
+            return n
+    T().visit(tree)
+    if new_defs:
+        # first-match semantics of the scan = dict built from the pairs in reverse order; keep the first of duplicate keys
+        for st in new_defs:
+            seen = set()
+            ks, vs = [], []
+            for k, v in zip(st.value.keys, st.value.values):
+                if k.value not in seen:
+                    seen.add(k.value)
+                    ks.append(k)
+                    vs.append(v)
+            st.value.keys, st.value.values = ks, vs
+        idx = 0
+        for i, st in enumerate(tree.body):
+            if isinstance(st, (ast.Import, ast.ImportFrom)) or (isinstance(st, ast.Expr) and isinstance(st.value, ast.Constant)):
+                idx = i + 1
+        tree.body[idx:idx] = new_defs
+        ast.fix_missing_locations(tree)
+
+
 def resolve_function_table(tree, fn, stats):
     """N11: dispatch through a constant table of functions,
 
@@ -2049,6 +2212,7 @@ def normalize_module(modname, tree, stats, pkg_dir=None):
     _Canon(stats).visit(tree)
     propagate_module_constants(tree, stats)
     # two passes: what the first one expands (a table of handlers, a holder object) gives the second one calls to inline
+    resolve_assoc_tables(tree, stats)
     for _outer in range(2):
         before = tuple(stats.get(k, 0) for k in ('function_tables_expanded', 'holders_eliminated', 'table_dispatch_expanded', 'getattr_const'))
         _normalize_pass(modname, tree, stats, pkg_dir)
